@@ -19,8 +19,9 @@ Ltac lift_let2 := lazymatch goal with
 Lemma fails_action2 : forall m a, fails (mon_action m a) = fails m.
 Proof. intros m a. destruct a; reflexivity. Qed.
 
-Definition mycodes2 : list Z := [201; 202; 203; 204; 303; 304].
-Definition okc2 (c : Z) : bool := negb (mem_z c mycodes2).
+(* the codes whose absence is proved here: the whole ranges 200..300 and 303..399 (201 202 203 204 303 304
+   are the only codes of Monitors.v in them) *)
+Definition okc2 (c : Z) : bool := negb (in_range 200 301 c) && negb (in_range 303 400 c).
 Definition Good2 (m : mon) : Prop := forall c, In c (fails m) -> okc2 c = true.
 
 Lemma Good2_fail : forall m c, Good2 m -> okc2 c = true -> Good2 (m_fail m c).
